@@ -86,10 +86,9 @@ def _capital_arg(scn, model_kwargs):
     model_kwargs["productive_capital_vector"] = v
 
 
-def build_model(scn, mriot=None):
+def model_kwargs(scn):
+    """(class, keyword arguments) exactly as a user would pass them."""
     m = scn["model"]
-    if mriot is None:
-        mriot = build_mriot(scn)
     kw = dict(
         order_type=m.get("order_type", "alt"),
         alpha_base=m.get("alpha_base", 1.0),
@@ -107,11 +106,26 @@ def build_model(scn, mriot=None):
         kw["inventory_dict"] = dict(m["inventory_dict"])  # list of pairs keeps order
     _capital_arg(scn, kw)
     if m.get("class", "psi") == "psi":
-        kw["psi_param"] = m.get("psi", 0.8)
+        psi = m.get("psi", 0.8)
+        form = m.get("psi_form", "float")        # the documented ways of writing psi
+        if form == "str_dot":
+            psi = repr(float(psi))
+        elif form == "str_us":
+            psi = repr(float(psi)).replace(".", "_")
+        elif form == "int" and float(psi) == int(psi):
+            psi = int(psi)
+        kw["psi_param"] = psi
         rt = m.get("inventory_restoration_tau", 60)
         kw["inventory_restoration_tau"] = dict(rt) if isinstance(rt, list) else rt
-        return ARIOPsiModel(mriot, **kw)
-    return ARIOBaseModel(mriot, **kw)
+        return ARIOPsiModel, kw
+    return ARIOBaseModel, kw
+
+
+def build_model(scn, mriot=None):
+    if mriot is None:
+        mriot = build_mriot(scn)
+    cls, kw = model_kwargs(scn)
+    return cls(mriot, **kw)
 
 
 def _series(pairs, names):
@@ -125,10 +139,18 @@ def user_recovery(elapsed_temporal_unit, init_impact_stock, recovery_tau):
     return init_impact_stock * r * r
 
 
-def build_event(e):
+def user_recovery_fixed(elapsed_temporal_unit, init_impact_stock, recovery_tau):
+    """A user-supplied recovery callable that is NOT proportional to the initial damage: the same
+    absolute amount is repaired per temporal unit everywhere (the largest damage is gone after tau)."""
+    rate = float(np.max(init_impact_stock)) / recovery_tau
+    return np.maximum(init_impact_stock - rate * elapsed_temporal_unit, 0.0)
+
+
+def _build_event_raw(e):
     """One event through the public constructors."""
     kind = e["type"]
-    common = dict(occurrence=e.get("occ", 1), duration=e.get("dur", 1), name=e.get("name"))
+    # "redate" / "relength": the event was first built with another date / duration and then moved with the public setters
+    common = dict(occurrence=e.get("occ", 1) - e.get("redate", 0), duration=e.get("dur", 1) + e.get("relength", 0), name=e.get("name"))
     extra = {}
     if kind in ("rebuild", "recovery"):
         if e.get("emf") is not None:
@@ -143,7 +165,7 @@ def build_event(e):
     else:
         extra["recovery_tau"] = e.get("tau")
         rf = e.get("recovery_function", "linear")
-        extra["recovery_function"] = user_recovery if rf == "user" else rf
+        extra["recovery_function"] = user_recovery if rf == "user" else (user_recovery_fixed if rf == "user_fixed" else rf)
     ctor = e.get("ctor", "series")
     if ctor == "series":
         return bev.from_series(_series(e["impact"], ["region", "sector"]), event_type=kind, **common, **extra)
@@ -168,6 +190,15 @@ def build_event(e):
     raise ValueError(ctor)
 
 
+def build_event(e):
+    ev = _build_event_raw(e)
+    if e.get("redate"):
+        ev.occurrence = e.get("occ", 1)
+    if e.get("relength"):
+        ev.duration = e.get("dur", 1)
+    return ev
+
+
 def build_sim(scn, model=None, outdir=None, events_mode="add", events=None):
     s = scn.get("sim", {})
     if model is None:
@@ -175,6 +206,8 @@ def build_sim(scn, model=None, outdir=None, events_mode="add", events=None):
     kw = dict(register_stocks=s.get("register_stocks", False), n_temporal_units_to_sim=s.get("n", 20))
     if s.get("save_records") is not None:
         kw["save_records"] = s["save_records"]
+    if s.get("show_progress"):
+        kw["show_progress"] = True
     if outdir is not None:
         kw["boario_output_dir"] = outdir
     if s.get("results_dir_name"):
